@@ -211,6 +211,15 @@ Section Stats.
     - exfalso. apply (H e). left. reflexivity.
   Qed.
 
+  (** a boolean test for "no parse error" (for examples) *)
+  Definition no_err_b (evs : list event) : bool :=
+    forallb (fun ev => match ev with ENode _ => true | EErr _ => false end) evs.
+
+  Lemma no_err_b_sound : forall evs, no_err_b evs = true -> no_parse_error NM evs.
+  Proof.
+    intros evs H e K. unfold no_err_b in H. rewrite forallb_forall in H. specialize (H _ K). discriminate.
+  Qed.
+
   (** *** the log callback's fold *)
   Definition stats_step (toks : list ltoken) (st : nat * time * time) (n : pnode) : nat * time * time :=
     let '(cnt, first, last) := st in
@@ -458,10 +467,7 @@ Example ex_log_readable : snd (scan ex_log NoFault) = ScanEOF.
 Proof. vm_compute. reflexivity. Qed.
 
 Example ex_log_no_error : no_parse_error ZNum (events ZNum ex_log).
-Proof.
-  intros e H. vm_compute in H.
-  repeat (destruct H as [H|H]; [discriminate|]). exact H.
-Qed.
+Proof. apply no_err_b_sound. vm_compute. reflexivity. Qed.
 
 Example ex_stats_fold :
   parse_opened ZNum (stats_log_cb ZNum ex_toks) (OData ex_log NoFault) (O, zero_time, zero_time)
